@@ -11,11 +11,13 @@ def run():
     work = Work(PID)
     thorough = tier() == "thorough"
     n = 5 if thorough else 4
-    mod, cfg = V.write_model(work, "soll", n, LABELS, LABELS, [("T", "F")], ["none", "q1"], ["SollEquivalence", "ExactlyOnceInOrder", "ParentDominates"])
+    # (8 labels on 5 nodes: 8.5 million states and an hour; the thorough tier goes one node deeper over the 5 labels that matter for SOLL)
+    labs = ["SOLL.T", "SOLL.F", "SOLL.K", "MUSS.T", "KANN.T"] if thorough else LABELS
+    mod, cfg = V.write_model(work, "soll", n, labs, labs, [("T", "F")], ["none", "q1"], ["SollEquivalence", "ExactlyOnceInOrder", "ParentDominates"])
     dump = work.path("v.dump")
     t = run_tlc(mod, cfg, work, dump=dump, timeout=3000)
     res.add_tlc(f"Validation: SollEquivalence on every AHB <= {n} nodes over labels with SOLL in every outcome at every kind of node", t)
-    V.replay_dump("C14", dump, res, stride=(60 if thorough else 24))
+    V.replay_dump("C14", dump, res, stride=(30 if thorough else 24))
     dump.unlink()
     mod3, cfg3 = V.write_model(work, "soll3", 3, V.ALL_LABELS, V.ALL_LABELS, [("T", "F")], ["none"], ["SollEquivalence"])
     dump3 = work.path("v3.dump")
